@@ -35,7 +35,7 @@ func main() {
 	run := lib.ParseArgs()
 	elaenv.InitLog(run.Out)
 	rng := lib.NewRng(run.Seed)
-	st := lib.NewStats("C12", "block trees on the real regnet BlockChain (fixture): trunk 1-6, 1-3 forks of depth 1-5 (25% forking off an earlier fork), <= 12 blocks, 35% with one context-invalid block (over-paying coinbase or double spend of the genesis output) inside a branch that ends above the trunk, 10% with an insane (no PoW) block; delivery natural / reversed (orphans first) / shuffled, 20% with a repeated delivery. nontrivial = history with a reorganisation, an orphan or an error; distinct by observation log")
+	st := lib.NewStats("C12", "block trees on the real regnet BlockChain (fixture): trunk 1-6, 1-3 forks of depth 1-5 (25% forking off an earlier fork), <= 12 blocks, 35% with one context-invalid block (over-paying coinbase or double spend of the genesis output) inside a branch that ends above the trunk, 10% with an insane (no PoW) block; plus deep proof-of-work forks (7-15 below the tip, first side blocks delivered early, trunk grows, fork overtakes late); delivery natural / reversed (orphans first) / shuffled, 20% with a repeated delivery. nontrivial = history with a reorganisation, an orphan or an error; distinct by observation log")
 	sh := &lib.Shards{Dir: run.Out, Imports: "From ELA Require Import corr.C12_corr.", CaseType: "C12_corr.case",
 		Mismatch: "C12_corr.mismatches", Scope: "Z", PerShard: 10}
 	id := 0
@@ -175,6 +175,26 @@ func main() {
 		if p || et == "" || changed {
 			st.Fail("C12:second-genesis", fmt.Sprintf("a block with an empty previous hash: panicked=%v err=%q chainChanged=%v (expected: rejected with an error, chain unchanged)", p, et, changed), "second-genesis")
 		}
+	}
+
+	// ---- deep forks (7-15 below the tip, proof-of-work era: no irreversibility)
+	// that overtake after the trunk has connected further blocks
+	{
+		var bs []chaincase.Blk
+		for i := 1; i <= 12; i++ {
+			bs = append(bs, blk(i, i-1, V))
+		}
+		prev := 1
+		for i := 13; i <= 25; i++ { // side branch from block 1, heights 2..14
+			bs = append(bs, blk(i, prev, V))
+			prev = i
+		}
+		ord := []int{1, 2, 3, 4, 5, 6, 7, 8, 9, 10, 13, 14, 15, 16, 11, 12, 17, 18, 19, 20, 21, 22, 23, 24, 25}
+		doHist(&chaincase.Hist{Name: "deep-fork-overtakes", Blocks: bs, Order: ord})
+	}
+	for i := 0; i < run.N(4, 150); i++ {
+		bs, ord := chaincase.DeepFork(rng.Fork())
+		doHist(&chaincase.Hist{Name: fmt.Sprintf("deep-%d", i), Blocks: bs, Order: ord})
 	}
 
 	// ---- generated
